@@ -15,7 +15,7 @@ ID = "C14"
 MANIFEST = {
     "technique": "history-based property-based testing (Hypothesis): generated command sequences over the whole builder alphabet, well-nested and ill-nested, against a Python model builder with the documented unification; snapshot immutability, twin-builder determinism and forced buffer growth; generated Python data through ak.from_iter / ak.ArrayBuilder of the unmodified Python layer; Form-driven LayoutBuilder against generated data",
     "level_text": "Generated-input exploration of histories (3/4 of the cases): a composite strategy that tracks the nesting stack draws sequences of <= 60 (quick) / <= 120 (thorough) commands over {null, boolean, integer, real, complex, datetime, timedelta, string, bytestring, beginlist/endlist, begintuple/index/endtuple, beginrecord(name)/field/endrecord, append, extend, snapshot, clear}, about one in eight with one ill-nested command (unbalanced end, field outside a record, index outside a tuple, index too large or negative, value without index/field, slot filled twice, append out of bounds; half of them placed inside an open tuple/record), with ArrayBuilderOptions initial in {1,2,3,8} x resize in {1.1,1.5,2.0} so that every buffer grows repeatedly. Each history runs on two builders (different options, C++ methods vs the exported awkward_ArrayBuilder_* C interface, *_check vs *_fast record calls). After every snapshot command: the snapshot must pass validityerror; decoded, it must equal strictly (int is int, float is float, -0.0, NaN, str vs bytes, tuple vs list) what a pure-Python model accumulated under the documented unification; both builders must give byte-identical descriptions; every earlier snapshot must still have exactly the description (all index and data buffers) it had when taken; len(builder) must be the number of completed items. Predicted errors must be raised; after a refusal at depth 0, clear() must restore a usable builder. Tier P (1/8): generated nested Python data (None, bool, int, float, complex, str, bytes, datetime64/timedelta64, lists, tuples, dicts) through ak.from_iter and, value by value, through the high-level ak.ArrayBuilder of /repo's own Python layer running on the akshim emulation of awkward._ext: both layouts and ak.to_list of both must equal the data under the same model, an intermediate snapshot must not change, from_iter and ArrayBuilder must give identical layouts. LayoutBuilder (1/8): a generated type and data, the Form of its canonical layout, the typed command sequence, and the snapshot must be valid and equal the data. Held on everything generated outside the two recorded LayoutBuilder findings; seven defects found by this check were repaired in /repo and are regression-tested by stored replays.",
-    "level_note": "Trusted: the /verif bridge (bridge/akb_builder.cpp) and akshim/builder.py, a re-statement of make_ArrayBuilder/make_LayoutBuilder/builder_fromiter of src/python/content.cpp which cannot be compiled here (the pybind11 glue itself is not decided; ak.from_iter therefore runs /repo's Python on the re-stated builder_fromiter); akmodel.core.decode as the reader of snapshots; akmodel/builder.py as my reading of the documented unification. clear() is taken to keep the type knowledge (ArrayBuilder.h): values appended before it still take part in the unification of what follows. The state of a builder after a refused command inside an open list/tuple/record, and clear() inside one, are not documented: only absence of crashes is required there. Arrays given to append/extend vary in type and in the class of their top node (the only thing the builder dispatches on); below the top node they use the canonical encoding, and when such an array has union type or floating-point leaves, numbers at the same position are compared numerically only (merging is Content::merge, property C08). A record without fields beside a by-reference union array is excluded (counted; known finding zero_field_records). LayoutBuilder: everything is demanded on the Forms of checks/c14.py lb_simple (leaves bool/int64/float64/string/bytestring; lists of lists of leaves; one option over a leaf; regular arrays of numbers; records/tuples of numbers; unions of numbers); other compositions and complex128 leaves are generated (3/10 of the LayoutBuilder cases) but fall under the two known findings, so the clause 'Form-driven LayoutBuilder reproduces the values' is decided only for the simple Forms; data buffers of at least 16 bytes.",
+    "level_note": "Trusted: the /verif bridge (bridge/akb_builder.cpp) and akshim/builder.py, a re-statement of make_ArrayBuilder/make_LayoutBuilder/builder_fromiter of src/python/content.cpp which cannot be compiled here (the pybind11 glue itself is not decided; ak.from_iter therefore runs /repo's Python on the re-stated builder_fromiter); akmodel.core.decode as the reader of snapshots; akmodel/builder.py as my reading of the documented unification. clear() is taken to keep the type knowledge (ArrayBuilder.h): values appended before it still take part in the unification of what follows. The state of a builder after a refused command inside an open list/tuple/record, and clear() inside one, are not documented: only absence of crashes is required there. Arrays given to append/extend vary in type and in the class of their top node (the only thing the builder dispatches on); below the top node they use the canonical encoding, and when such an array has union type or floating-point leaves, numbers at the same position are compared numerically only (merging is Content::merge, property C08). A record without fields beside a by-reference union array is excluded (counted; known finding zero_field_records). LayoutBuilder: everything is demanded on the Forms of checks/c14.py lb_simple (leaves bool/int64/float64/string/bytestring; lists of lists of leaves; one option over a leaf; regular arrays of numbers; records/tuples of numbers; unions of numbers); other compositions and complex128 leaves are generated (3/10 of the LayoutBuilder cases) but fall under the two known findings, so the clause 'Form-driven LayoutBuilder reproduces the values' is decided only for the simple Forms; data buffers of at least 16 bytes. One history in eight is about append/extend by reference (mostly elements of Indexed/option/plain source arrays, some None, some nested lists); bytestrings are drawn from an alphabet in which a fifth of the bytes are zero.",
 }
 RULE = ("case = one whole history: builder options of two builders, call route (C++ / C interface, check / fast), up to two small generated arrays for append/extend, "
         "and the command list; or kind 'py': a list of generated Python values for ak.from_iter / ak.ArrayBuilder with the position of an intermediate snapshot; "
